@@ -743,11 +743,15 @@ func (e *Engine) boxHeap(t types.Type) (string, *smt.Sort) {
 func init() {
 	smt.GroundAxiomHook = func(t *smt.Term) []*smt.Term {
 		if strings.HasPrefix(t.Name, "sub$") && len(t.Args) == 1 {
-			return []*smt.Term{smt.Neq(t, RefNil), smt.Eq(smt.App("parent$"+t.Name, smt.Ref, t), t.Args[0])}
+			return []*smt.Term{smt.Neq(t, RefNil), smt.Eq(smt.App("parent$"+t.Name, smt.Ref, t), t.Args[0]),
+				smt.Eq(RootOf(t), RootOf(t.Args[0]))}
 		}
 		return nil
 	}
 }
+
+// RootOf maps an interior reference (embedded struct) to the allocated object that contains it.
+func RootOf(r *smt.Term) *smt.Term { return smt.App("root$ref", smt.Ref, r) }
 
 func (e *Engine) subRef(st types.Type, idx int, r *smt.Term) *smt.Term {
 	u := st.Underlying().(*types.Struct)
